@@ -257,12 +257,20 @@ PROPS = {
         "assumptions": EVAL_ASSUME,
     },
     "C05": {
-        "proof_modules": ["GrolProofs.Props.C05"],
-        "theorems": ["Grol.Reg.C05.loop_balanced", "Grol.Reg.C05.nested_loops_balanced", "Grol.Reg.C05.sequence_balanced"],
-        "suites": [["eval", "C05"]],
-        "rule": EVAL_RULE + " C05 statement: per input, output/value/error/panic are identical with registers on and off (both cache settings).",
-        "trusted_base": EVAL_TB + ["register file model lean/Grol/Registers.lean (MakeRegister/ReleaseRegister/HasRegisters and the post-fix protocol of evalForInteger); "
-                                   "the rewriting of bodies (ModifyRegister) is not modelled"],
+        "proof_modules": ["GrolProofs.Props.C05", "GrolProofs.RegRewrite", "GrolProofs.RegSim"],
+        "theorems": ["Grol.Reg.C05.loop_balanced", "Grol.Reg.C05.nested_loops_balanced", "Grol.Reg.C05.sequence_balanced",
+                     "Grol.RegRewrite.modifyR_spec", "Grol.RegRewrite.C05.rewrite_shape", "Grol.RegRewrite.C05.rewrite_shape_nested",
+                     "Grol.RegRewrite.C05.rewrite_refuses", "Grol.RegRewrite.C05.useRegister_spec",
+                     "Grol.RegRewrite.C05.read_sim"],
+        "suites": [["eval", "C05"], "regrewrite"],
+        "rule": EVAL_RULE + " C05 statement: per input, output/value/error/panic are identical with registers on and off (both cache settings)."
+                " regrewrite: a case is (registers enabled?, registers in use, candidate names, body); the decisions (eligible, ok, count, register index, kept) and the"
+                " rewritten body of the real registerEligible/setupRegister equal the model's (modifyR/useRegisters); statement: they equal the SPECIFICATION"
+                " (refuses/substAll/registerEligible) and erasing the registers gives back the body; nontrivial = some candidate was eligible.",
+        "trusted_base": EVAL_TB + ["register file model lean/Grol/Registers.lean (MakeRegister/ReleaseRegister/HasRegisters and the post-fix protocol of evalForInteger)",
+                                   "rewrite model lean/Grol/Eval/RegRewrite.lean (ModifyRegister over ast.Modify, setupRegister, registerEligible), tied by the regrewrite suite "
+                                   "through the hook eval.VerifSetupRegisters; the register-aware evaluation (a register read yields the integer it holds) is a definition of "
+                                   "GrolProofs/RegSim.lean, tied to the code only through the eval suite (registers on vs the register-free model)"],
         "assumptions": EVAL_ASSUME,
     },
     "C07": {
